@@ -29,6 +29,17 @@ CHECKS = {
              'arithmetic for the argument terms; float64 rounding only for the listed primitive shapes.',
         technique=TECH + ' (QF_UFLRA) and z3 floating-point theory (QF_FP) for the float64 lemmas',
         design='3/C05'),
+    'C07': dict(
+        text='Bounded solver verdict on the real Richardson class: _r_matrix run with a symbolic ratio has the documented '
+             'power in every entry; __call__ (pinv rule, convolution orientation/origin/trimming) maps L+sum_j a_j h^k_j to L in '
+             'every output slot for ALL L, a_j in [-1,1] (real ratios and complex spiral ratios) within the backward-error bound of '
+             'the float weights; output counts, short sequences, non-negative error estimates on all _estimate_error branches, '
+             'column independence. Bounds: length<=8, num_terms<=5, step<=4, order<=8, stated ratio grid.',
+        note='Trusted: z3 (QF_LRA / QF_UFLRA); the convolve1d reference (differentially validated, including reflected boundary '
+             'rows, on every run); float weights and double-rounded sequence coefficients as exact rationals. Known finding '
+             'listed in known_findings.json (num_terms=0 error-array length).',
+        technique=TECH + ' (QF_LRA)',
+        design='3/C07'),
     'C13': dict(
         text='Bounded solver verdict on the real dea3 executed on symbolic arrays: for ALL real inputs abserr>=0 and '
              'abserr>=|result-v2| (hence honest against any X the inputs are within t of), element independence, inputs '
